@@ -153,7 +153,8 @@ def belief(chain, n):
 
 
 # ------------------------------------------------------------------------------------------- decisions
-def gs_eff(c):
+def gs_eff(c, inherited):
+    """`inherited`: what the bases resolve -- a class that would inherit a generated pair gets its own"""
     if not is_attrs(c):
         return False
     if c["gs"] == "t":
@@ -162,17 +163,17 @@ def gs_eff(c):
         return False
     if c["autoDetect"] and c["userGS"]:
         return False
-    return c["slots"]
+    return c["slots"] or (not c["userGS"] and inherited[0] == "gen")
 
 
 def resolve_gs(chain):
-    for k in range(len(chain) - 1, -1, -1):
-        c = chain[k]
-        if gs_eff(c):
-            return ("gen", k)
-        if c["userGS"]:
-            return ("user", k)
-    return ("default", None)
+    cur = ("default", None)
+    for k, c in enumerate(chain):
+        if gs_eff(c, cur):
+            cur = ("gen", k)
+        elif c["userGS"]:
+            cur = ("user", k)
+    return cur
 
 
 def hash_decision(chain, k):
@@ -321,7 +322,7 @@ def roundtrip(chain, orig, op):
             if v is None:
                 return "attributeError", None
             st.append((n, v))
-        falsy = not st
+        falsy = not st and not chain[k]["cacheHash"]
         none = False
     elif kind == "user":
         st = []
